@@ -174,6 +174,36 @@ func runC07_9(c *core.Ctx) {
 					}
 				}
 				record = false
+				// an acquisition inside a closure that stores its error in a captured variable: the statement
+				// that runs the closure must not assign the same variable (its own result would replace the
+				// acquisition's error as soon as the closure returns)
+				if body != f.Decl.Body {
+					ast.Inspect(f.Decl.Body, func(n ast.Node) bool {
+						as, ok := n.(*ast.AssignStmt)
+						if !ok || len(as.Rhs) != 1 {
+							return true
+						}
+						call, ok := ast.Unparen(as.Rhs[0]).(*ast.CallExpr)
+						if !ok {
+							return true
+						}
+						runs := false
+						for _, a := range call.Args {
+							if fl, ok := ast.Unparen(a).(*ast.FuncLit); ok && fl.Body == body {
+								runs = true
+							}
+						}
+						if !runs {
+							return true
+						}
+						for _, l := range as.Lhs {
+							if flow.ObjOf(f.Info, l) == p.errObj {
+								bads = append(bads, bad{as.Pos(), "the error of " + p.what + " is stored by the closure in " + p.errObj.Name() + ", and the statement that runs the closure assigns its own result to the same variable: a failed acquisition is replaced by that call's (nil) error and goes unnoticed"})
+							}
+						}
+						return true
+					})
+				}
 				construct := "error of " + p.what + " tested before reuse"
 				if len(bads) == 0 {
 					c.Ok(f.Name, construct, p.pos, "checked or returned before the descriptor is used or the error overwritten")
